@@ -141,6 +141,21 @@ run("first-slot-login-refused", mods_for(S.pair("Ka", KA_OTHER), S.pair("Ka", KA
 run("all-logins-refused", mods_for(S.pair("Ka", KA), login=(False,)), {"ksk_a": ceremony.ksk_def(KA)}, strict=False)
 run("second-module", [[{"id": 0, "objs": S.pair("Kb", KB)}], [{"id": 0, "objs": S.pair("Ka", KA)}]], {"ksk_a": ceremony.ksk_def(KA)})
 run("second-module-public-first-module-private", [[{"id": 0, "objs": [S.obj("Ka", "priv", KA)]}], [{"id": 0, "objs": [S.obj("Ka", "pub", KA)]}]], {"ksk_a": ceremony.ksk_def(KA)})
+# an ambiguous or unreadable label in an earlier module stops the run, whatever a later module holds
+M2 = [{"id": 0, "objs": S.pair("Ka", KA)}]
+for wt in (True, False):
+    kd = {"ksk_a": ceremony.ksk_def(KA, with_tag=wt, with_ds=wt)}
+    run("first-module-duplicate-public", [[{"id": 0, "objs": [S.obj("Ka", "pub", KA), S.obj("Ka", "pub", KA_OTHER), S.obj("Ka", "priv", KA)]}], M2], kd)
+    run("first-module-duplicate-private", [[{"id": 0, "objs": [S.obj("Ka", "pub", KA), S.obj("Ka", "priv", KA), S.obj("Ka", "priv", KA_OTHER)]}], M2], kd)
+    run("first-module-duplicate-identical", [[{"id": 0, "objs": S.pair("Ka", KA) + S.pair("Ka", KA)}], M2], kd)
+    run("first-module-duplicate-in-second-slot", [[{"id": 0, "objs": S.pair("Kb", KB)}, {"id": 1, "objs": S.pair("Ka", KA) + S.pair("Ka", KA_OTHER)}], M2], kd)
+    run("first-module-private-unreadable", [[{"id": 0, "objs": [S.obj("Ka", "pub", KA), S.obj("Ka", "priv", KA, pub_attrs=False)]}], M2], kd, strict=False)
+    run("first-module-symmetric-key", [[{"id": 0, "objs": [S.obj("Ka", "pub", None, ktype=LL.CKK_AES), S.obj("Ka", "priv", None, ktype=LL.CKK_AES)]}], M2], kd, strict=False)
+    # the public key published and signed for is that of the private object found, not of a public object with the label somewhere else
+    run("sign-only-public-copy-of-other-key-in-earlier-module", [[{"id": 0, "objs": [S.obj("Ka", "pub", KA_OTHER)] + S.pair("Kb", KB)}], M2],
+        {**kd, "ksk_b": ceremony.ksk_def(KB)}, schema={1: {"publish": ["ksk_b"], "sign": ["ksk_a"], "revoke": []}}, nb=1)
+    run("sign-only-public-copy-in-same-slot", mods_for([S.obj("Ka", "pub", KA_OTHER), S.obj("Ka", "priv", KA)] + S.pair("Kb", KB)),
+        {**kd, "ksk_b": ceremony.ksk_def(KB)}, schema={1: {"publish": ["ksk_b"], "sign": ["ksk_a"], "revoke": []}}, nb=1)
 run("unknown-key-name-in-schema", BASE_MODS, {"ksk_a": ceremony.ksk_def(KA)}, schema={1: {"publish": ["ksk_zz"], "sign": ["ksk_a"], "revoke": []}}, nb=1)
 
 # 5. random combinations
